@@ -208,7 +208,7 @@ def random_load(rnd, elems, mode=None):
     return ld
 
 
-def time_constant(elems):
+def time_constant(elems, extra_damping=0.0):
     """rough mechanical time constant J_eq / k seen at the output (to pick sensible steps)"""
     jeq = float(elems[0]['J'])
     for i in range(1, len(elems)):
@@ -217,11 +217,12 @@ def time_constant(elems):
         jeq = jeq * float(r) + float(e['J'])
     rp = float(ratio_prod(elems))
     k = float(elems[0]['Tmax']) / float(elems[0]['w0']) * rp * rp * eff_prod(elems)
+    k += extra_damping
     return jeq / k if k > 0 else 1.0
 
 
-def pick_dt(rnd, elems):
-    tau = time_constant(elems)
+def pick_dt(rnd, elems, extra_damping=0.0):
+    tau = time_constant(elems, extra_damping)
     dt = tau * rnd.uniform(0.02, 0.3)
     dt = min(max(dt, 1e-6), 0.5)
     # decimal step m * 10^-e
@@ -288,7 +289,7 @@ def random_stop(rnd, elems, dt, n):
     return {'sensor': s, 'el': el, 'op': rnd.choice(['gt', 'ge', 'eq', 'lt', 'le']), 'thr': sig(thr) if thr != 0 else F(0)}
 
 
-def random_instance(rnd, family):
+def random_instance(rnd, family, stable=False):
     """family: plain | lock | control | stop | mixed"""
     n_el = rnd.randint(2, 12) if rnd.random() < 0.3 else rnd.randint(2, 6)
     want_sl = {'lock': True, 'plain': rnd.choice([None, None, False])}.get(family, rnd.choice([None, None, True]))
@@ -296,8 +297,14 @@ def random_instance(rnd, family):
         n_el = 3
     elems = random_chain(rnd, n_el, want_selflock=want_sl)
     mode = rnd.choice(['over', 'over', 'neg', 'small', 'time', 'speed', 'mid']) if family == 'lock' else None
+    if stable and mode is None:
+        mode = rnd.choice(['small', 'small', 'mid', 'over', 'neg', 'speed', 'time', 'zero'])
     load = random_load(rnd, elems, mode)
-    dt = pick_dt(rnd, elems)
+    if stable:
+        # well-conditioned dynamics only (pair comparisons judge "beyond rounding"): no spring-like or negative-damping load
+        load['c2'] = F(0)
+        load['c1'] = abs(load['c1'])
+    dt = pick_dt(rnd, elems, extra_damping=float(load['c1']) if stable else 0.0)
     inst = {'elems': elems, 'load': load, 'ctrls': [], 'stops': []}
     n1 = rnd.randint(3, 30)
     w_out = float(elems[0]['w0']) / float(ratio_prod(elems))
